@@ -1,0 +1,40 @@
+//! Verification hook (compiled only with `--cfg pilota_verif`): schedule
+//! jitter and an order log around the per-module code generation tasks, so
+//! that a determinism monitor can vary and observe the rayon schedule.
+//!
+//! `VERIF_JITTER_SEED` (u64): sleep 0..2 ms before a module task starts, keyed
+//! by the seed and the module path. `VERIF_ORDER_LOG` (path): append one line
+//! per task start (`S <path>`) and task end (`E <path>`).
+
+use std::io::Write;
+
+fn path_str(p: &[faststr::FastStr]) -> String {
+    p.iter().map(|s| s.as_str()).collect::<Vec<_>>().join("::")
+}
+
+fn log(tag: &str, p: &[faststr::FastStr]) {
+    if let Ok(f) = std::env::var("VERIF_ORDER_LOG") {
+        if let Ok(mut file) = std::fs::OpenOptions::new().create(true).append(true).open(f) {
+            let _ = writeln!(file, "{} {}", tag, path_str(p));
+        }
+    }
+}
+
+pub(crate) fn task_begin(p: &[faststr::FastStr]) {
+    if let Some(seed) = std::env::var("VERIF_JITTER_SEED")
+        .ok()
+        .and_then(|s| s.parse::<u64>().ok())
+    {
+        let mut h: u64 = seed ^ 0xcbf29ce484222325;
+        for b in path_str(p).bytes() {
+            h ^= b as u64;
+            h = h.wrapping_mul(0x100000001b3);
+        }
+        std::thread::sleep(std::time::Duration::from_micros(h % 2000));
+    }
+    log("S", p);
+}
+
+pub(crate) fn task_end(p: &[faststr::FastStr]) {
+    log("E", p);
+}
